@@ -109,6 +109,8 @@ def check_strings(case, rec):
         kw["metric"] = mobj
     a = G.materialise(seqs, case.get("container", "list"))
     b = None if seqs2 is None else G.materialise(seqs2, case.get("container", "list"))
+    if case.get("same_object") and seqs2 is not None and list(seqs2) == list(seqs):
+        b = a          # pcDelta(x, x): every ordered pair incl. the diagonal, like any other two-collection call
     got = call("pcDelta", pyrepseq.pcDelta, a, b, **kw)
     cmp_hist("histogram", got, want, normalize, f"pcDelta(n={len(seqs)}, n2={None if seqs2 is None else len(seqs2)}, bins={edges}, normalize={normalize}, pseudocount={pseudo})")
     # linked invariants with the default metric
@@ -348,6 +350,9 @@ def strings_case(draw, tier="quick"):
             "bins_as": draw(st.sampled_from(["list", "array"])), "default_bins": draw(st.booleans())}
     if draw(st.booleans()):
         case["seqs2"] = draw(G.clonal_family(alpha=alpha, max_size=25, min_size=1, founder_len=(1, 9), max_edits=3))
+        if draw(st.integers(0, 3)) == 0:
+            case["seqs2"] = list(case["seqs"])
+            case["same_object"] = draw(st.booleans())
     if draw(st.integers(0, 5)) == 0 and case["metric"] in (None, "lev"):
         # nucleotide-length reads mixed with short ones: distances of 256 and more must not wrap around
         L = draw(st.integers(256, 330))
